@@ -469,7 +469,8 @@ def extract_swap(section):
     for pc in pieces[:-1]:
         if "\n" in pc or not pc.strip():
             fail("unexpected line structure in asm template: %r" % pc)
-        instrs.append(parse_instr(pc.replace("\t", " "), opmap))
+        term, pretty = parse_instr(pc.replace("\t", " "), opmap)
+        instrs.append((term, " ".join(pretty.replace("%%", "%").split())))
     return {"instrs": instrs, "inputs": ins, "clobbers": clob}
 
 
